@@ -43,6 +43,10 @@ def body(E, cfg):
     thr = E.real("breakSegmentThreshold")
     E.assume(minScore > 0)
     E.assume(thr >= 0)
+    if cfg.get("bound"):        # bounded values: code that needs machine numbers (int(), range(), indexing) is enumerated, not lost
+        for v in scores + [minScore, thr]:
+            E.assume(v >= -cfg["bound"])
+            E.assume(v <= cfg["bound"])
     positions = []
     for i, s in enumerate(scores):
         if cfg.get("unpaired") and i in cfg["unpaired"]:
@@ -118,6 +122,7 @@ def configs(tier):
     top = 6 if tier == "quick" else 8
     cfgs = [{"n": k} for k in range(0, top + 1)]
     cfgs.append({"n": 4, "unpaired": [1, 2]})
+    cfgs.append({"n": 3, "bound": 2})
     return cfgs
 
 
@@ -133,7 +138,8 @@ def units(prop):
                    "src.alignment.segments_factory:_AlignmentSegmentBuilder",
                    "src.alignment.segments:AlignmentSegment.create"],
         bounds="n scored positions, n = 0..6 (quick) / 0..8 (thorough); every score, minScore > 0 and "
-               "breakSegmentThreshold >= 0 are unbounded symbolic reals",
+               "breakSegmentThreshold >= 0 are unbounded symbolic reals; one extra configuration with 3 positions and all values in [-2, 2] "
+               "(there, code that asks for a machine number is enumerated by realisation instead of becoming inconclusive)",
         nontrivial_rule="path returns >= 1 non-empty segment, or returns the empty result for a list of >= 2 positions",
         assumptions=["minScore > 0 (constructor rejects otherwise)", "breakSegmentThreshold >= 0",
                      "scores are exact reals (IEEE rounding not modelled)"],
